@@ -5,21 +5,22 @@
 # 3. applies the mutation to /repo, runs the given checks, restores /repo
 set -u
 WT=$1; ID=$2; FILT=$3; shift 3
+PX=${PX:-}
 OUT=/verif/seeded/$ID; mkdir -p $OUT
 export CARGO_NET_OFFLINE=true
 cd $WT || exit 2
 git checkout -q -- . 2>/dev/null
-git apply MUTATION.diff || { echo "mutation does not apply"; exit 2; }
+git apply ${PX}MUTATION.diff || { echo "mutation does not apply"; exit 2; }
 SUITE=$(cargo test --workspace --no-fail-fast --offline 2>&1 | grep -E "^test result" | tr '\n' ' ')
 echo "suite with mutation: $SUITE"
-git apply DEMO.diff || { echo "demo does not apply"; exit 2; }
+git apply ${PX}DEMO.diff || { echo "demo does not apply"; exit 2; }
 DM=$(cargo test --workspace --no-fail-fast --offline "$FILT" 2>&1 | grep -E "^test result: (FAILED|ok). [1-9]|^test result: FAILED" | tr '\n' ' ')
 echo "demo with mutation: $DM"
-git checkout -q -- . ; git apply DEMO.diff
+git checkout -q -- . ; git apply ${PX}DEMO.diff
 DO=$(cargo test --workspace --no-fail-fast --offline "$FILT" 2>&1 | grep -E "^test result: (FAILED|ok). [1-9]|^test result: FAILED" | tr '\n' ' ')
 echo "demo without mutation: $DO"
-git checkout -q -- . ; git clean -fdq -e MUTATION.diff -e DEMO.diff -e NOTES.md -e target
-cp MUTATION.diff $OUT/patch.diff; cp DEMO.diff $OUT/demo.diff; cp NOTES.md $OUT/NOTES.md
+git checkout -q -- . ; git clean -fdq -e "*.diff" -e NOTES.md -e target
+cp ${PX}MUTATION.diff $OUT/patch.diff; cp ${PX}DEMO.diff $OUT/demo.diff; cp NOTES.md $OUT/NOTES.md
 cd /verif
 RES=""
 git -C /repo apply $OUT/patch.diff || { echo "cannot apply to /repo"; exit 2; }
